@@ -182,7 +182,7 @@ func tail(s string, n int) string {
 }
 
 var reSrc = regexp.MustCompile(`rt\.Source[B]?\((\d+)\)`)
-var reSnk = regexp.MustCompile(`rt\.Sink[S2]?\((\d+),`)
+var reSnk = regexp.MustCompile(`rt\.Sink[SR2]?\((\d+),`)
 
 // SiteMap maps file:line to source/sink ids by scanning the generated text.
 type SiteMap struct {
